@@ -1329,7 +1329,7 @@ class Lib:
         trusted("numpy.nonzero (1-D): the ascending indices of the true / non-zero elements")
         a = ex.as_seq(args[0], st)
         rng = Seq(a.n, lambda i: i, "array")
-        out, _, _ = ex.seq_filter(rng, lambda i: ex.truth(a.at(i)), st)
+        out, _, _ = ex.seq_filter(rng, lambda i: ex.truth(a.at(i)), st, mask=a if a.ety() == "bool" else None)
         return (out,)
 
     def b_np_argwhere(self, ex, st, args, kwargs, node):
